@@ -3,6 +3,88 @@
 
 #[path = "/verif/harness/stdlite.rs"]
 pub(crate) mod stdlite;
+#[path = "/verif/harness/numlook.rs"]
+pub(crate) mod numlook;
+
+// ---------------------------------------------------------------------------------------------
+// End-to-end confirmation for serializer oracles.
+//
+// The serializer harnesses compare the emitter with a *reference reader* written in the harness.
+// Such an oracle could be stricter than the real parser; to make a false alarm impossible every
+// oracle failure is conjoined with `e2e_*_mismatch(..)`:
+//   * under Kani the function is stubbed to `true` (#[kani::stub(e2e_.., e2e_true_..)]), so the
+//     solver decides the oracle alone;
+//   * in the native replay of the counterexample stubs are not applied: the real
+//     `to_string` -> `from_str` round trip runs and the assertion only fails if the real crate
+//     really reads back something else.
+// ---------------------------------------------------------------------------------------------
+
+/// position: 0 root, 1 block sequence item, 2 block mapping value, 3 block mapping key,
+/// 4 flow sequence item, 5 flow mapping value
+pub(crate) fn e2e_string_mismatch(s: &str, position: u8, quote_all: bool, yaml_12: bool) -> bool {
+    use std::collections::BTreeMap;
+    let mut opts = crate::SerializerOptions::default();
+    opts.quote_all = quote_all;
+    opts.yaml_12 = yaml_12;
+    let owned = s.to_string();
+    match position {
+        0 => {
+            let y = match crate::to_string_with_options(&owned, opts) {
+                Ok(y) => y,
+                Err(_) => return true,
+            };
+            !matches!(crate::from_str::<String>(&y), Ok(b) if b == owned)
+        }
+        1 => {
+            let v = vec![owned.clone(), owned];
+            let y = match crate::to_string_with_options(&v, opts) {
+                Ok(y) => y,
+                Err(_) => return true,
+            };
+            !matches!(crate::from_str::<Vec<String>>(&y), Ok(b) if b == v)
+        }
+        2 => {
+            let mut m = BTreeMap::new();
+            m.insert("k".to_string(), owned);
+            let y = match crate::to_string_with_options(&m, opts) {
+                Ok(y) => y,
+                Err(_) => return true,
+            };
+            !matches!(crate::from_str::<BTreeMap<String, String>>(&y), Ok(b) if b == m)
+        }
+        3 => {
+            let mut m = BTreeMap::new();
+            m.insert(owned, "v".to_string());
+            let y = match crate::to_string_with_options(&m, opts) {
+                Ok(y) => y,
+                Err(_) => return true,
+            };
+            !matches!(crate::from_str::<BTreeMap<String, String>>(&y), Ok(b) if b == m)
+        }
+        4 => {
+            let v = crate::FlowSeq(vec![owned.clone(), owned]);
+            let y = match crate::to_string_with_options(&v, opts) {
+                Ok(y) => y,
+                Err(_) => return true,
+            };
+            !matches!(crate::from_str::<Vec<String>>(&y), Ok(b) if b == v.0)
+        }
+        _ => {
+            let mut m = BTreeMap::new();
+            m.insert("k".to_string(), owned);
+            let w = crate::FlowMap(m);
+            let y = match crate::to_string_with_options(&w, opts) {
+                Ok(y) => y,
+                Err(_) => return true,
+            };
+            !matches!(crate::from_str::<BTreeMap<String, String>>(&y), Ok(b) if b == w.0)
+        }
+    }
+}
+
+pub(crate) fn e2e_true_string(_s: &str, _position: u8, _quote_all: bool, _yaml_12: bool) -> bool {
+    true
+}
 
 /// N arbitrary ASCII bytes (0x00..=0x7F).
 pub(crate) fn any_ascii<const N: usize>() -> [u8; N] {
